@@ -127,6 +127,31 @@ def wrapper_cache(S, n):
                 S.prove(S.eq(sum(wi * x for wi, x in zip(w, coords[d])), _moment(hi, lo, 1)), 'wrapper-cache:%s-linear-functions-exact-in-every-dimension-and-round' % tag)
 
 
+def wrapper_settings(S, n):
+    """Several GlobalRombergGrid objects with different extrapolation settings live in one process and see the same 1-D grid one after the other
+    (a trapezoid reference next to a Romberg grid, two operations, ...).  Whatever an earlier object cached, each object delivers the weights of
+    its OWN settings: equal to those of an identically configured object that does not use the cache (do_cache=False)."""
+    from sparseSpACE import Grid as G
+    X = _X()
+    a, h = _interval(S, True)
+    lv = list(lib.tree_levels(S, 'tree', n))
+    coords = list(lib.dyadic_coords(lv, a, a + h))
+    groupings = [X.SliceGrouping.UNIT, X.SliceGrouping.GROUPED, X.SliceGrouping.GROUPED_OPTIMIZED]
+    versions = [X.SliceVersion.ROMBERG_DEFAULT, X.SliceVersion.TRAPEZOID]
+    cfg = []
+    for rnd in range(2):
+        cfg.append((groupings[S.choice('grouping%d' % rnd, len(groupings))], versions[S.choice('version%d' % rnd, len(versions))]))
+    for rnd, (grp, ver) in enumerate(cfg):
+        got = G.GlobalRombergGrid([a], [a + h], boundary=True, slice_grouping=grp, slice_version=ver)
+        got.set_grid([coords], [lv])
+        ref = G.GlobalRombergGrid([a], [a + h], boundary=True, do_cache=False, slice_grouping=grp, slice_version=ver)
+        ref.set_grid([coords], [lv])
+        w, wr = list(got.weights[0]), list(ref.weights[0])
+        S.prove(len(w) == n and len(wr) == n, 'wrapper-settings:one-weight-per-point')
+        S.prove(sym_and(*[S.eq(x, y) for x, y in zip(w, wr)]), 'wrapper-settings:object-%d-delivers-the-weights-of-its-own-settings' % (rnd + 1))
+        S.prove(S.eq(sum(w), h), 'wrapper-settings:weights-sum-to-the-interval-length')
+
+
 def _is_complete_balanced(lv):
     """Balanced extrapolation needs a tree in which every inner node has zero or two children."""
     lv = [int(l) for l in lv]
@@ -236,6 +261,7 @@ def jobs(tier):
                                                              'force_balanced': False, 'sym_interval': True, 'wrapper': True}, validate=(7 if q else 3)))
     for n in (3, 4, 5) if q else (3, 4, 5, 6, 7):
         js.append(Job('wrapper-cache[n=%d]' % n, wrapper_cache, {'n': n}, validate=(7 if q else 3), budget_s=(600 if q else 3000)))
+        js.append(Job('wrapper-settings[n=%d]' % n, wrapper_settings, {'n': n}, validate=(7 if q else 3), budget_s=(600 if q else 3000)))
     for n in (3, 5, 7, 9) if q else (3, 5, 7, 9, 11, 13, 17):
         js.append(Job('balanced[n=%d]' % n, balanced, {'n': n, 'sym_interval': True}, validate=(5 if q else 2), budget_s=(600 if q else 3000)))
         js.append(Job('balanced-wrapper[n=%d]' % n, balanced, {'n': n, 'sym_interval': True, 'wrapper': True}, validate=(5 if q else 2), budget_s=(600 if q else 3000)))
